@@ -57,12 +57,39 @@ fn is_rect(fragments: &[&Fragment]) -> bool {
             let line_b2 = fragments[b2].as_line().expect("expecting a line");
             line_a1.is_touching_aabb_perpendicular(line_b1)
                 && line_a2.is_touching_aabb_perpendicular(line_b2)
+                && is_outline_of_bounds(&[line_a1, line_a2, line_b1, line_b2])
         } else {
             false
         }
     } else {
         false
     }
+}
+
+/// the 4 lines are exactly the 4 edges of the rectangle bounding all of their end points
+fn is_outline_of_bounds(lines: &[&crate::fragment::Line]) -> bool {
+    let points: Vec<crate::Point> =
+        lines.iter().flat_map(|l| [l.start, l.end]).collect();
+    let (min, max) = match (points.iter().min(), points.iter().max()) {
+        (Some(min), Some(max)) => (*min, *max),
+        _ => return false,
+    };
+    let edges = [
+        (min.x, min.y, max.x, min.y),
+        (min.x, max.y, max.x, max.y),
+        (min.x, min.y, min.x, max.y),
+        (max.x, min.y, max.x, max.y),
+    ];
+    min.x < max.x
+        && min.y < max.y
+        && edges.iter().all(|(x1, y1, x2, y2)| {
+            lines.iter().any(|l| {
+                l.start.x == *x1
+                    && l.start.y == *y1
+                    && l.end.x == *x2
+                    && l.end.y == *y2
+            })
+        })
 }
 
 /// qualifications:
